@@ -472,6 +472,18 @@ func genCase(t *rapid.T) *Case {
 		}
 		c.Subs = append(c.Subs, s)
 	}
+	// joiners in a burst: several subscribers arrive back to back at the
+	// same point of the traffic, so that a dispatch worker is busy with the
+	// consequences of one arrival while the next one lands
+	if !c.Lockstep && total >= 3 && rapid.IntRange(0, 3).Draw(t, "burstJoin") == 0 {
+		k := rapid.IntRange(1, total-1).Draw(t, "burstJoinAt")
+		for j := 0; j < rapid.IntRange(2, 4).Draw(t, "burstJoiners"); j++ {
+			c.Subs = append(c.Subs, Sub{SubscribeAfter: k, UnsubscribeAfter: -1, Yields: []int{0}})
+		}
+		if c.Publishers < 2 {
+			c.Publishers = 2
+		}
+	}
 	for i, n := 0, rapid.IntRange(0, 3).Draw(t, "redundant")-1; i < n; i++ {
 		c.Redundant = append(c.Redundant, Redundant{After: rapid.IntRange(0, total).Draw(t, "redundantAfter"), Kind: rapid.SampledFrom([]string{"foreign", "again"}).Draw(t, "redundantKind")})
 	}
